@@ -1320,6 +1320,8 @@ package asm
 //@ spec tyOf(a ast.LlvmNode) types.Type
 //@ # tkind(t, a): the IR type t is of the kind the written type a asks for (a named type is whatever it was defined as)
 //@ macro tkind(t types.Type, a ast.LlvmNode) bool = (typeis(a, "*ast.VoidType") ==> typeis(t, "*types.VoidType")) && (typeis(a, "*ast.FuncType") ==> typeis(t, "*types.FuncType")) && (typeis(a, "*ast.IntType") ==> typeis(t, "*types.IntType")) && (typeis(a, "*ast.FloatType") ==> typeis(t, "*types.FloatType")) && (typeis(a, "*ast.MMXType") ==> typeis(t, "*types.MMXType")) && (typeis(a, "*ast.PointerType") ==> typeis(t, "*types.PointerType")) && ((typeis(a, "*ast.VectorType") || typeis(a, "*ast.ScalableVectorType")) ==> typeis(t, "*types.VectorType")) && (typeis(a, "*ast.LabelType") ==> typeis(t, "*types.LabelType")) && (typeis(a, "*ast.TokenType") ==> typeis(t, "*types.TokenType")) && (typeis(a, "*ast.MetadataType") ==> typeis(t, "*types.MetadataType")) && (typeis(a, "*ast.ArrayType") ==> typeis(t, "*types.ArrayType")) && ((typeis(a, "*ast.OpaqueType") || typeis(a, "*ast.StructType") || typeis(a, "*ast.PackedStructType")) ==> typeis(t, "*types.StructType"))
+//@ # tattr(t, a): the attributes that tell apart written types of one IR kind: scalability of vectors, packedness of structs
+//@ macro tattr(t types.Type, a ast.LlvmNode) bool = (typeis(a, "*ast.VectorType") ==> !cast(t, "*types.VectorType").Scalable) && (typeis(a, "*ast.ScalableVectorType") ==> cast(t, "*types.VectorType").Scalable) && (typeis(a, "*ast.StructType") ==> !cast(t, "*types.StructType").Packed && !cast(t, "*types.StructType").Opaque) && (typeis(a, "*ast.PackedStructType") ==> cast(t, "*types.StructType").Packed && !cast(t, "*types.StructType").Opaque)
 //@ # irType builds a new type for every use of a written type (verified: of the kind the node asks for, see the
 //@ # one-level contracts of the translators below). Its last clause DEFINES tyOf: tyOf(a) is the type irType
 //@ # returns for a, up to type identity -- assumed, not verified: that irType is a function of the node up to teq.
@@ -1328,7 +1330,7 @@ package asm
 //@   partial
 //@   requires gen != nil
 //@   assigns nothing
-//@   ensures result1 == nil ==> tkind(result0, old) && (!typeis(old, "*ast.NamedType") ==> result0 != nil)
+//@   ensures result1 == nil ==> tkind(result0, old) && (!typeis(old, "*ast.NamedType") ==> result0 != nil) && tattr(result0, old)
 //@   ensures result1 == nil && typeis(old, "*ast.NamedType") ==> result0 == gen.new.typeDefs[getTypeName(localIdent(cast(old, "*ast.NamedType").Name()))]
 //@   assumed ensures result1 == nil ==> result0 != nil && teq(result0, tyOf(old)) && unfold(result0)
 //@ func (*generator).irTypeDef
@@ -1338,7 +1340,7 @@ package asm
 //@   behaviour create:
 //@     requires t == nil
 //@     assigns nothing
-//@     ensures result1 == nil ==> tkind(result0, old) && (!typeis(old, "*ast.NamedType") ==> result0 != nil)
+//@     ensures result1 == nil ==> tkind(result0, old) && (!typeis(old, "*ast.NamedType") ==> result0 != nil) && tattr(result0, old)
 //@     ensures result1 == nil && typeis(old, "*ast.NamedType") ==> result0 == gen.new.typeDefs[getTypeName(localIdent(cast(old, "*ast.NamedType").Name()))]
 //@   # alias: a definition whose body is another named type is looked up, nothing is written (known finding of C04)
 //@   behaviour alias:
